@@ -38,8 +38,8 @@ func runMem(cx *Ctx, typ, method string) *memRun {
 	tr := dom.NewTrace(c)
 	in := absint.New(cx.P, c, tr)
 	in.LoopBodies = true
-	in.Models = map[string]func(in *absint.Interp, args []absint.Value, guard bdd.Node, pos string) (absint.Value, bool){
-		"reflect.DeepEqual": func(in *absint.Interp, args []absint.Value, guard bdd.Node, pos string) (absint.Value, bool) {
+	in.Models = map[string]absint.ModelFunc{
+		"reflect.DeepEqual": func(in *absint.Interp, args []absint.Value, guard bdd.Node, st *absint.State, pos string) (absint.Value, bool) {
 			var ds []string
 			for _, a := range args {
 				iv, ok := a.(*absint.Iface)
